@@ -886,6 +886,10 @@ class Gen:
         k = r.random()
         ints = [n for n, t in cands if t == "int"]
         strs = [n for n, t in cands if t == "string"]
+        if self.c.funcs and len(cands) >= 2 and r.random() < (0.35 if self.in_func is not None else 0.12):
+            m = self.multi_call_assign(scope, cands)
+            if m is not None:
+                return m
         if k < 0.2 and ints:
             self.count("incdec")
             return ("incdec", r.choice(ints), r.choice(["++", "--"]))
@@ -900,6 +904,10 @@ class Gen:
             self.count("opassign")
             return ("opassign", r.choice(strs), "+", self.expr("string", scope, 2))
         if k < 0.6 and len(cands) >= 2:
+            if r.random() < 0.3:
+                m = self.multi_call_assign(scope, cands)
+                if m is not None:
+                    return m
             self.count("multiassign")
             m = r.choice([2, 2, 3]) if len(cands) >= 3 else 2
             picks = r.sample(cands, m)
@@ -911,6 +919,25 @@ class Gen:
         self.count("assign")
         n, t = r.choice(cands)
         return ("assign", [n], [self.expr(t, scope)])
+
+    def multi_call_assign(self, scope, cands):
+        """multi-value call assignment: pick the function first, then distinct variables of its return types"""
+        r = self.r
+        fs2 = [f for f in self.funcs if len(f[2]) >= 2]
+        r.shuffle(fs2)
+        for f in fs2:
+            pool = list(cands)
+            r.shuffle(pool)
+            chosen = []
+            for t in f[2]:
+                m = next((c for c in pool if c[1] == t and c not in chosen), None)
+                if m is None:
+                    break
+                chosen.append(m)
+            else:
+                self.count("multiassign-call")
+                return ("assign", [n for n, _ in chosen], [("call", f[0], [self.expr(pt, scope, 2) for _, pt in f[1]], f[2])])
+        return None
 
     def if_stmt(self, scope, nest):
         r = self.r
